@@ -1,9 +1,9 @@
 (* Proofs about the URL layer of CA/Model.v: percent-encoding round trips, what a reader of the
    certificate sees ([reparse]), and parse-after-print for well-formed identities. *)
-From Verif Require Import Base.Prelude CA.Model.
+From Verif Require Import Base.Prelude.
+From Verif Require Import CA.Model.
 Open Scope string_scope.
 Open Scope N_scope.
-Open Scope list_scope.
 
 Local Arguments N.add : simpl nomatch.
 
@@ -88,7 +88,7 @@ Proof. unfold set_path. rewrite unescape_escape, streqb_refl. reflexivity. Qed.
 Theorem reparse_fresh sch h p pl : p <> "*" -> reparse (Url sch h p "" pl) = Url sch h p "" pl.
 Proof.
   intros Hne. unfold reparse, escaped_path. cbn [u_raw u_path u_scheme u_host u_plain nonempty].
-  cbn [String.eqb negb andb].
+  change (nonempty "") with false. cbn [andb].
   destruct (p =? "*")%string eqn:E; [apply String.eqb_eq in E; contradiction|].
   rewrite set_path_escape. reflexivity.
 Qed.
@@ -223,7 +223,7 @@ Lemma lower_app a b : lower (a ++ b) = lower a ++ lower b.
 Proof. induction a as [|c a IH]; cbn [String.append lower]; [reflexivity | rewrite IH; reflexivity]. Qed.
 
 Lemma cut_dot_app cl dom : (forall a b, cut_dot cl <> Some (a, b)) ->
-  cut_dot (cl ++ "." ++ dom) = Some (cl, dom).
+  cut_dot (cl ++ String "."%char dom) = Some (cl, dom).
 Proof.
   induction cl as [|c cl IH]; intros H; cbn [String.append cut_dot].
   - reflexivity.
@@ -274,8 +274,8 @@ Proof.
   - destruct H as (Hn & Hlc & Hld & Hnd).
     unfold uri_of, parse_cert_uri, fresh_url. cbn [u_scheme u_raw u_path u_host nonempty String.eqb Ascii.eqb Bool.eqb negb].
     cbn [split_slash m_service m_agent m_gateway m_server].
-    rewrite lower_app, lower_app, Hlc, Hld. cbn [lower ascii_lower code in_range N_of_ascii].
-    change (lower ".") with ".". rewrite (cut_dot_app _ _ Hnd), Hn. reflexivity.
+    cbn [String.append]. rewrite lower_app. cbn [lower]. change (ascii_lower ".") with "."%char.
+    rewrite Hlc, Hld, (cut_dot_app _ _ Hnd), Hn. reflexivity.
 Qed.
 
 (* ... and the identity survives the certificate: print, encode into the SAN, parse back *)
